@@ -66,7 +66,11 @@ impl Arena {
     fn leak(s: Cow<'static, str>) -> &'static str {
         match s {
             Cow::Borrowed(s) => s,
-            Cow::Owned(string) => Box::leak(string.into_boxed_str()),
+            Cow::Owned(string) => {
+                #[cfg(feature = "verif-hooks")]
+                super::verif_hooks::count_leak(&super::verif_hooks::LEAKED_STRINGS);
+                Box::leak(string.into_boxed_str())
+            }
         }
     }
 
@@ -88,6 +92,8 @@ impl Arena {
             return existing;
         }
 
+        #[cfg(feature = "verif-hooks")]
+        super::verif_hooks::yield_point("strings:before_write");
         let mut lock = self.lock_strings_mut();
         if let Some(existing) = lock.get(s.as_ref()).copied() {
             return existing;
@@ -121,6 +127,8 @@ impl Arena {
         );
 
         let metadata = Box::leak(Box::new(metadata)) as &_;
+        #[cfg(feature = "verif-hooks")]
+        super::verif_hooks::count_leak(&super::verif_hooks::LEAKED_METADATA);
         call_site.metadata.set(metadata).unwrap();
         metadata
     }
@@ -136,6 +144,8 @@ impl Arena {
     /// Returns the metadata and a flag whether it was allocated in this call.
     pub(super) fn alloc_metadata(&self, data: CallSiteData) -> (&'static Metadata<'static>, bool) {
         let hash_value = Self::hash_metadata(&data);
+        #[cfg(feature = "verif-hooks")]
+        super::verif_hooks::yield_point("metadata:before_read");
         let scanned_bucket_len = {
             let lock = self.lock_metadata();
             if let Some(bucket) = lock.get(&hash_value) {
@@ -150,6 +160,8 @@ impl Arena {
             }
         };
 
+        #[cfg(feature = "verif-hooks")]
+        super::verif_hooks::yield_point("metadata:before_write");
         let mut lock = self.lock_metadata_mut();
         let bucket = lock.entry(hash_value).or_default();
         for &metadata in &bucket[scanned_bucket_len..] {
@@ -167,6 +179,10 @@ impl Arena {
     // The returned hash doesn't necessarily match the hash of `Metadata`, but it is the same
     // for the equivalent `(kind, data)` tuples, which is what we need.
     fn hash_metadata(data: &CallSiteData) -> u64 {
+        #[cfg(feature = "verif-hooks")]
+        if let Some(hash_value) = super::verif_hooks::hash_override(data) {
+            return hash_value;
+        }
         let mut hasher = DefaultHasher::new();
         data.hash(&mut hasher);
         hasher.finish()
